@@ -67,12 +67,17 @@ def _soup_cases(tier, rng):
     return out
 
 
-def _shape(kinds):
+def _shape(kinds, texts=None):
     """Token-pattern facts used to recognise the known acceptance defects."""
     facts = set()
     stack = []
     prev = None
-    for k in kinds:
+    texts = texts or [None] * len(kinds)
+    for k, tx in zip(kinds, texts):
+        if k == 'op' and tx not in ('+', '-') and prev in (None, 'lpar', 'fn', 'comma', 'lbrace', 'semi', 'op'):
+            facts.add('binary-operator-without-left-operand')
+        if prev == 'op' and k in ('rpar', 'rbrace', 'comma', 'semi'):
+            facts.add('operator-without-right-operand')
         if k in ('lpar', 'fn', 'lbrace'):
             stack.append(k)
         elif k == 'rpar':
@@ -87,8 +92,8 @@ def _shape(kinds):
                 facts.add('close-without-open')
             elif stack.pop() != 'lbrace':
                 facts.add('bracket-kind-mismatch')
-        elif k == 'comma' and not stack:
-            facts.add('top-level-comma')
+        elif k == 'comma' and (not stack or stack[-1] == 'lpar'):
+            facts.add('top-level-comma')        # a separator outside any function / array
         elif k == 'semi' and (not stack or stack[-1] != 'lbrace'):
             facts.add('semi-outside-braces')
         if k == 'pct' and prev in (None, 'comma', 'lpar', 'fn', 'op', 'lbrace', 'semi'):
@@ -110,11 +115,11 @@ def _shape(kinds):
 def _classify_soup(case, detail):
     toks = [ALPHABET[i] for i in case]
     kinds = [k for k, _ in toks]
-    if 'Invalid output id' in detail or 'is not a data node' in detail:
+    if 'Invalid output id' in detail or 'is not a data node' in detail or 'ValueError: Invalid data id' in detail:
         return 'KF-C18-1'
     if 'outside the grammar' in detail:
-        f = _shape(kinds)
-        if f & {'close-without-open', 'operand-after-close'}:
+        f = _shape(kinds, [t for _, t in toks])
+        if f & {'close-without-open', 'operand-after-close', 'open-after-operand'}:
             return 'KF-C18-2'
         if f & {'percent-without-operand', 'operand-after-percent'}:
             return 'KF-C18-3'
@@ -124,6 +129,8 @@ def _classify_soup(case, detail):
             return 'KF-C18-5'
         if 'empty-array-element' in f:
             return 'KF-C18-7'
+        if f & {'binary-operator-without-left-operand', 'operator-without-right-operand'}:
+            return 'KF-C18-8'
     return None
 
 
@@ -159,7 +166,7 @@ def _check_text(text):
 
 
 def _classify_text(case, detail):
-    if 'Invalid output id' in detail or 'is not a data node' in detail:
+    if 'Invalid output id' in detail or 'is not a data node' in detail or 'ValueError: Invalid data id' in detail:
         return 'KF-C18-1'
     if "KeyError: '\\t'" in detail and '\t' in case:
         return 'KF-C18-6'
